@@ -18,12 +18,22 @@ type modgraphCase struct {
 	ID      int                 `json:"id"`
 	Imports map[string][]string `json:"imports"`
 	Rename  map[string]string   `json:"rename"` // model module name -> name in the module map (path-like aliases of one another)
+	Late    bool                `json:"late"`   // every module's last import stands after its export statement (compiled, never run)
 }
 
 // every module exports its own (model) name and the values its imports yielded, so that the value of an
 // import expression identifies the module that was really compiled and run for it
 func bodyFor(me string, imps []string, export bool, real func(string) string) string {
+	return bodyForLayout(me, imps, export, real, false)
+}
+
+func bodyForLayout(me string, imps []string, export bool, real func(string) string, late bool) string {
 	var sb strings.Builder
+	lateImport := ""
+	if late && export && len(imps) > 0 {
+		lateImport = fmt.Sprintf("x%d := import(%q)\n", len(imps)-1, real(imps[len(imps)-1]))
+		imps = imps[:len(imps)-1]
+	}
 	for i, m := range imps {
 		fmt.Fprintf(&sb, "x%d := import(%q)\n", i, real(m))
 	}
@@ -37,6 +47,7 @@ func bodyFor(me string, imps []string, export bool, real func(string) string) st
 		}
 		sb.WriteString("]}\n")
 	}
+	sb.WriteString(lateImport)
 	return sb.String()
 }
 
@@ -89,7 +100,7 @@ func modgraphHandle(raw []byte) map[string]interface{} {
 			continue
 		}
 		names = append(names, n)
-		mm.AddSourceModule(real(n), []byte(bodyFor(n, imps, true, real)))
+		mm.AddSourceModule(real(n), []byte(bodyForLayout(n, imps, true, real, c.Late)))
 	}
 	sort.Strings(names)
 	s := tengo.NewScript([]byte(bodyFor("main", c.Imports["main"], false, real)))
@@ -136,6 +147,9 @@ func modgraphHandle(raw []byte) map[string]interface{} {
 		}
 	}
 	res["compiles"] = counts
+	if c.Late {
+		return res // the late imports never run: only the verdict and the compile counts are comparable
+	}
 	if e := comp.Run(); e != nil {
 		res["run_error"] = e.Error()
 		return res
@@ -253,6 +267,8 @@ func mixedImportHandle(raw []byte) map[string]interface{} {
 		filepath.Join(imp, "nested", "d.tengo"): "export \"FROM-D\"\n",
 		filepath.Join(imp, "d.tengo"):           "export \"FROM-OUTER-D\"\n",
 		// decoys in the working directory: never the right answer
+		filepath.Join(imp, "cfgfile.tengo"):  "export {a: 1, l: [1, 2]}\n",
+		filepath.Join(imp, "arrfile.tengo"):  "export [1, [2]]\n",
 		filepath.Join(other, "helper.tengo"): "export \"FROM-CWD\"\n",
 		filepath.Join(other, "d.tengo"):      "export \"FROM-CWD\"\n",
 	}
@@ -263,9 +279,34 @@ func mixedImportHandle(raw []byte) map[string]interface{} {
 	mm.AddSourceModule("lib", []byte("export import(\"helper\")\n"))
 	mm.AddSourceModule("lib2", []byte("export \"FROM-LIB2\"\n"))
 	mm.AddSourceModule("lib3", []byte("export [import(\"lib2\"), import(\"helper\"), import(\"a\")]\n"))
-	s := tengo.NewScript([]byte(fmt.Sprintf("out := import(%q)\n", c.Main)))
-	s.SetImports(mm)
-	s.EnableFileImport(true)
+	mm.AddSourceModule("cfgmap", []byte("export {a: 1, l: [1, 2]}\n"))
+	mm.AddSourceModule("arrmap", []byte("export [1, [2]]\n"))
+	src := fmt.Sprintf("out := import(%q)\n", c.Main)
+	fileImport := true
+	use := mm
+	switch c.Main {
+	case "@immut": // what a module exports is immutable wherever the module came from
+		src = "a := import(\"cfgmap\")\nb := import(\"cfgfile\")\nc := import(\"arrmap\")\nd := import(\"arrfile\")\n" +
+			"out := [type_name(a), type_name(b), type_name(c), type_name(d), is_immutable_map(b), is_immutable_array(d)]\n"
+	case "@immut-write-file":
+		src = "b := import(\"cfgfile\")\nb.a = 5\nout := b.a\n"
+	case "@immut-write-file-array":
+		src = "d := import(\"arrfile\")\nd[0] = 5\nout := d[0]\n"
+	case "@copy-secret", "@copy-kept": // a copy of the module map modified afterwards: the original is unchanged
+		cp := mm.Copy()
+		cp.AddSourceModule("secret", []byte("export \"SECRET\"\n"))
+		cp.AddBuiltinModule("secretb", map[string]tengo.Object{"x": tengo.TrueValue})
+		cp.Remove("lib2")
+		fileImport = false
+		if c.Main == "@copy-secret" {
+			src = "out := import(\"secret\")\n"
+		} else {
+			src = "out := import(\"lib2\")\n"
+		}
+	}
+	s := tengo.NewScript([]byte(src))
+	s.SetImports(use)
+	s.EnableFileImport(fileImport)
 	_ = s.SetImportDir(imp)
 	cwd, _ := os.Getwd()
 	_ = os.Chdir(other)
